@@ -30,6 +30,7 @@ def main():
     try:
         chk.proof = fw.prove(pid, tier, getattr(mod, "EXTRA_MODULES", ()))
         mod.run(chk)
+        fw.replay_generic_witnesses(chk)
     except fw.BuildError as e:
         print("BUILD-ERROR:", e)
         return 2
